@@ -312,6 +312,10 @@ type c12Req struct {
 	Prelude   bool              `json:"prelude,omitempty"`        // the same handler first serves a request that arrived on a non-loopback address (a server listening on 0.0.0.0)
 	NoSID     bool              `json:"no_session_ids,omitempty"` // stateful endpoint whose server suppresses session ids (GetSessionID returns ""): every request is served by an ephemeral session
 	Wrapped   bool              `json:"wrapped,omitempty"`        // the violating message travels as the only element of a JSON array
+	// DefaultLimit: the handler is built without a body limit of its own ("nil-options": nil *StreamableHTTPOptions;
+	// "zero-limit": options that leave MaxRequestBodyBytes at 0) and the documented default of 4 MiB applies; the
+	// oversize body is padded to 4 MiB + 100 bytes when it is sent (the replay keeps the short form)
+	DefaultLimit string `json:"default_limit,omitempty"`
 }
 
 func b64h(s string) string { return "=?base64?" + base64.StdEncoding.EncodeToString([]byte(s)) + "?=" }
@@ -415,6 +419,12 @@ func genC12Req(r *vh.Rand) c12Req {
 	case "size":
 		q.Body = q.Body[:len(q.Body)-1] + strings.Repeat(" ", 5000) + "}"
 		q.Want = []int{413}
+		if q.Endpoint != "sse" && r.Chance(1, 4) {
+			q.DefaultLimit = "zero-limit"
+			if q.Endpoint == "stateful" && !q.JSONResp && r.Bool() {
+				q.DefaultLimit = "nil-options"
+			}
+		}
 		if r.Bool() {
 			q.Headers["Transfer-Encoding"] = "chunked" // a body whose length is not announced must be limited too
 		}
@@ -513,14 +523,24 @@ func c12Soundness(c *vh.Case) {
 	fmt.Sscan(portS, &port)
 	la := &net.TCPAddr{IP: net.ParseIP(strings.Trim(host, "[]")), Port: port}
 	var h http.Handler
+	limit, sendBody := int64(4096), q.Body
+	if q.DefaultLimit != "" {
+		limit = 0
+		sendBody = q.Body[:len(q.Body)-1] + strings.Repeat(" ", mcp.DefaultMaxRequestBodyBytes+100-len(q.Body)) + "}"
+		c.Seen("default_body_limit", q.DefaultLimit+"/"+q.Endpoint)
+	}
 	url := "http://" + q.Host + "/mcp"
 	var ssePostURL string
 	var sseCancel context.CancelFunc
 	switch q.Endpoint {
 	case "stateless":
-		h = mcp.NewStreamableHTTPHandler(func(*http.Request) *mcp.Server { return server }, &mcp.StreamableHTTPOptions{Stateless: true, MaxRequestBodyBytes: 4096, JSONResponse: q.JSONResp})
+		h = mcp.NewStreamableHTTPHandler(func(*http.Request) *mcp.Server { return server }, &mcp.StreamableHTTPOptions{Stateless: true, MaxRequestBodyBytes: limit, JSONResponse: q.JSONResp})
 	case "stateful":
-		h = mcp.NewStreamableHTTPHandler(func(*http.Request) *mcp.Server { return server }, &mcp.StreamableHTTPOptions{MaxRequestBodyBytes: 4096, JSONResponse: q.JSONResp})
+		if q.DefaultLimit == "nil-options" {
+			h = mcp.NewStreamableHTTPHandler(func(*http.Request) *mcp.Server { return server }, nil)
+		} else {
+			h = mcp.NewStreamableHTTPHandler(func(*http.Request) *mcp.Server { return server }, &mcp.StreamableHTTPOptions{MaxRequestBodyBytes: limit, JSONResponse: q.JSONResp})
+		}
 	case "sse":
 		h = mcp.NewSSEHandler(func(*http.Request) *mcp.Server { return server }, nil)
 	}
@@ -570,7 +590,7 @@ func c12Soundness(c *vh.Case) {
 		hdr[k] = v
 	}
 	hdr["Host"] = q.Host
-	st, rh, body, err := ip.Do(ctx, "POST", url, hdr, []byte(q.Body))
+	st, rh, body, err := ip.Do(ctx, "POST", url, hdr, []byte(sendBody))
 	if err != nil {
 		c.Inconclusive("transport error: %v", err)
 	}
